@@ -63,13 +63,13 @@ fn any_text3() -> ([u8; 3], [u32; 3], usize) {
     (b, scalars, n)
 }
 
-//@ id: c06_h2_str_lengths_and_get
+//@ id: c06_h2_str_lengths
 //@ property: C06
 //@ tier: quick
-//@ encodes: BuiltinRuntime::invoke (dispatch), impls::{str_scalar_length, str_byte_length, str_get_branch}, Utf8String::{scalar_len, byte_len, scalar}, OptionalValueBranch::select, usize::try_from
-//@ sym: a well-formed UTF-8 text of 3 bytes in every scalar layout (1+1+1, 1+2, 2+1, 3) with symbolic content; index: any i64
-//@ oracle: scalar count and scalar values decoded independently from the layout; scalar length counts scalars (not bytes), byte length is 3; str_get forces `none` iff index < 0 or index >= scalar count, else applies `some` to exactly the index-th scalar
-//@ bounds: texts of exactly 3 bytes (so scalars up to U+FFFF); all indices; unwind 6
+//@ encodes: BuiltinRuntime::invoke (dispatch), impls::{str_scalar_length, str_byte_length}, Utf8String::{scalar_len, byte_len}
+//@ sym: a well-formed UTF-8 text of 3 bytes in every scalar layout (1+1+1, 1+2, 2+1, 3) with symbolic content
+//@ oracle: scalar count taken from the layout: scalar length counts scalars (not bytes), byte length is 3; both return Int64
+//@ bounds: texts of exactly 3 bytes; unwind 6
 //@ stubs: as c05_h3_arith_int8
 //@ replay: playback
 #[kani::proof]
@@ -77,19 +77,43 @@ fn any_text3() -> ([u8; 3], [u32; 3], usize) {
 #[kani::stub(std::hash::RandomState::new, fixed_random_state)]
 #[kani::stub(random_int, no_random_int)]
 #[kani::stub(<SemValue as std::clone::Clone>::clone, clone_thunk_only)]
-fn c06_h2_str_lengths_and_get() {
+fn c06_h2_str_lengths() {
+    let (bytes, _scalars, n) = any_text3();
+    let mut world = World::new();
+    if kani::any() {
+        let out = ManuallyDrop::new(world.invoke(BuiltinValueRole::StrScalarLength, vec![text_value(&bytes)]));
+        match &*out {
+            | Ok(c) => assert!(matches!(returned(c), Some(v) if is_int64(v, n as i64)), "scalar length counts Unicode scalar values"),
+            | Err(_) => assert!(false, "must not exit"),
+        }
+    } else {
+        let out = ManuallyDrop::new(world.invoke(BuiltinValueRole::StrByteLength, vec![text_value(&bytes)]));
+        match &*out {
+            | Ok(c) => assert!(matches!(returned(c), Some(v) if is_int64(v, 3)), "byte length is the encoded length"),
+            | Err(_) => assert!(false, "must not exit"),
+        }
+    }
+    kani::cover!(n == 1, "a single three-byte scalar");
+    std::mem::forget(world);
+}
+
+//@ id: c06_h2_str_get
+//@ property: C06
+//@ tier: quick
+//@ encodes: BuiltinRuntime::invoke (dispatch), impls::str_get_branch, Utf8String::scalar, OptionalValueBranch::select, usize::try_from
+//@ sym: a well-formed UTF-8 text of 3 bytes in every scalar layout with symbolic content; index: any i64
+//@ oracle: scalar values decoded independently from the layout: `none` is forced iff index < 0 or index >= scalar count, else `some` is applied to exactly the index-th scalar
+//@ bounds: texts of exactly 3 bytes (scalars up to U+FFFF); all indices; unwind 6
+//@ stubs: as c05_h3_arith_int8
+//@ replay: playback
+#[kani::proof]
+#[kani::unwind(6)]
+#[kani::stub(std::hash::RandomState::new, fixed_random_state)]
+#[kani::stub(random_int, no_random_int)]
+#[kani::stub(<SemValue as std::clone::Clone>::clone, clone_thunk_only)]
+fn c06_h2_str_get() {
     let (bytes, scalars, n) = any_text3();
     let mut world = World::new();
-    let out = ManuallyDrop::new(world.invoke(BuiltinValueRole::StrScalarLength, vec![text_value(&bytes)]));
-    match &*out {
-        | Ok(c) => assert!(matches!(returned(c), Some(v) if is_int64(v, n as i64)), "scalar length counts Unicode scalar values"),
-        | Err(_) => assert!(false, "must not exit"),
-    }
-    let out = ManuallyDrop::new(world.invoke(BuiltinValueRole::StrByteLength, vec![text_value(&bytes)]));
-    match &*out {
-        | Ok(c) => assert!(matches!(returned(c), Some(v) if is_int64(v, 3)), "byte length is the encoded length"),
-        | Err(_) => assert!(false, "must not exit"),
-    }
     let index: i64 = kani::any();
     let (when_none, none_body) = marker('N');
     let (when_some, some_body) = marker('S');
@@ -407,21 +431,7 @@ fn c06_h1_package_value_arity() {
     std::mem::forget(value);
 }
 
-//@ id: c06_h2_std_io_roles
-//@ property: C06
-//@ tier: quick
-//@ encodes: BuiltinRuntime::invoke (dispatch), impls::{io_read_all, io_write_all, io_flush, io_close_reader, io_close_writer, write_str, write_line, read_line, read_till_eof, read_line_as_int_branch, arg_fold}, ReaderIo::run, WriterIo::run, HostContinuation::{force, one}, HostRuntime::{close_reader, close_writer} on the standard handles
-//@ sym: which role (constant call sites chosen by the solver); payload of 3 symbolic bytes for the write roles; standard input empty, argv empty
-//@ oracle: on the standard handles each role consumes exactly its declared arguments and continues with its *success* continuation (never the error one) applied to the declared payload: read_all -> empty bytes, write_all/write_str/write_line -> the bytes arrive on the output in order, flush/close -> success forced, read_line/read_till_eof -> the empty string, read_line_as_int -> the failure continuation (empty line is no number), arg_fold -> the empty continuation
-//@ bounds: standard handles only; empty input; 3-byte payloads; unwind 6
-//@ stubs: as c05_h3_arith_int8
-//@ replay: playback
-#[kani::proof]
-#[kani::unwind(6)]
-#[kani::stub(std::hash::RandomState::new, fixed_random_state)]
-#[kani::stub(random_int, no_random_int)]
-#[kani::stub(<SemValue as std::clone::Clone>::clone, clone_thunk_only)]
-fn c06_h2_std_io_roles() {
+fn std_io_case(lo: u8, hi: u8) {
     let (when_error, error_body, when_success, success_body) = markers();
     let payload: [u8; 3] = kani::any();
     kani::assume(payload[0] < 0x80 && payload[1] < 0x80 && payload[2] < 0x80);
@@ -430,6 +440,7 @@ fn c06_h2_std_io_roles() {
     let bytes = || ZValue::Host(HostValue::Bytes(Rc::from(&payload[..])));
     let mut world = World::new();
     let which: u8 = kani::any();
+    kani::assume(lo <= which && which <= hi);
     let to_stderr: bool = kani::any();
     match which {
         | 0 => {
@@ -471,13 +482,68 @@ fn c06_h2_std_io_roles() {
             let out = ManuallyDrop::new(world.invoke(BuiltinValueRole::ReadLineAsInt, vec![when_error.clone(), when_success.clone()]));
             assert!(matches!(&*out, Ok(c) if forces(c, &error_body)), "an empty line is not a number: failure continuation");
         }
-        | _ => {
+        | 9 => {
             // declared order: empty continuation first, then item continuation
             let out = ManuallyDrop::new(world.invoke(BuiltinValueRole::ArgList, vec![when_success.clone(), when_error.clone()]));
             assert!(matches!(&*out, Ok(c) if forces(c, &success_body)), "no arguments: the empty continuation");
         }
+        | _ => {}
     }
     std::mem::forget(world);
     std::mem::forget((when_error, error_body, when_success, success_body));
+}
+
+//@ id: c06_h2_std_io_read_write
+//@ property: C06
+//@ tier: quick
+//@ encodes: BuiltinRuntime::invoke (dispatch), impls::{io_read_all, io_write_all, io_flush, io_close_reader, io_close_writer, write_str, write_line, read_line, read_till_eof, read_line_as_int_branch, arg_fold}, ReaderIo::run, WriterIo::run, HostContinuation::{force, one}, HostRuntime::{close_reader, close_writer} on the standard handles
+//@ sym: which of the roles io_read_all, io_write_all, io_flush (constant call sites chosen by the solver); payload of 3 symbolic bytes for the write roles; standard input empty, argv empty
+//@ oracle: on the standard handles each role consumes exactly its declared arguments and continues with its *success* continuation (never the error one) applied to the declared payload: read_all -> empty bytes, write_all/write_str/write_line -> the bytes arrive on the output in order, flush/close -> success forced, read_line/read_till_eof -> the empty string, read_line_as_int -> the failure continuation (empty line is no number), arg_fold -> the empty continuation
+//@ bounds: standard handles only; empty input; 3-byte payloads; unwind 6
+//@ stubs: as c05_h3_arith_int8
+//@ replay: playback
+#[kani::proof]
+#[kani::unwind(6)]
+#[kani::stub(std::hash::RandomState::new, fixed_random_state)]
+#[kani::stub(random_int, no_random_int)]
+#[kani::stub(<SemValue as std::clone::Clone>::clone, clone_thunk_only)]
+fn c06_h2_std_io_read_write() {
+    std_io_case(0, 2);
+}
+
+//@ id: c06_h2_std_io_close_write_str
+//@ property: C06
+//@ tier: quick
+//@ encodes: BuiltinRuntime::invoke (dispatch), impls::{io_read_all, io_write_all, io_flush, io_close_reader, io_close_writer, write_str, write_line, read_line, read_till_eof, read_line_as_int_branch, arg_fold}, ReaderIo::run, WriterIo::run, HostContinuation::{force, one}, HostRuntime::{close_reader, close_writer} on the standard handles
+//@ sym: which of the roles io_close_reader, io_close_writer, write_str (constant call sites chosen by the solver); payload of 3 symbolic bytes for the write roles; standard input empty, argv empty
+//@ oracle: on the standard handles each role consumes exactly its declared arguments and continues with its *success* continuation (never the error one) applied to the declared payload: read_all -> empty bytes, write_all/write_str/write_line -> the bytes arrive on the output in order, flush/close -> success forced, read_line/read_till_eof -> the empty string, read_line_as_int -> the failure continuation (empty line is no number), arg_fold -> the empty continuation
+//@ bounds: standard handles only; empty input; 3-byte payloads; unwind 6
+//@ stubs: as c05_h3_arith_int8
+//@ replay: playback
+#[kani::proof]
+#[kani::unwind(6)]
+#[kani::stub(std::hash::RandomState::new, fixed_random_state)]
+#[kani::stub(random_int, no_random_int)]
+#[kani::stub(<SemValue as std::clone::Clone>::clone, clone_thunk_only)]
+fn c06_h2_std_io_close_write_str() {
+    std_io_case(3, 5);
+}
+
+//@ id: c06_h2_std_io_legacy_reads
+//@ property: C06
+//@ tier: quick
+//@ encodes: BuiltinRuntime::invoke (dispatch), impls::{io_read_all, io_write_all, io_flush, io_close_reader, io_close_writer, write_str, write_line, read_line, read_till_eof, read_line_as_int_branch, arg_fold}, ReaderIo::run, WriterIo::run, HostContinuation::{force, one}, HostRuntime::{close_reader, close_writer} on the standard handles
+//@ sym: which of the roles read_line, read_till_eof, read_line_as_int, arg_list (constant call sites chosen by the solver); payload of 3 symbolic bytes for the write roles; standard input empty, argv empty
+//@ oracle: on the standard handles each role consumes exactly its declared arguments and continues with its *success* continuation (never the error one) applied to the declared payload: read_all -> empty bytes, write_all/write_str/write_line -> the bytes arrive on the output in order, flush/close -> success forced, read_line/read_till_eof -> the empty string, read_line_as_int -> the failure continuation (empty line is no number), arg_fold -> the empty continuation
+//@ bounds: standard handles only; empty input; 3-byte payloads; unwind 6
+//@ stubs: as c05_h3_arith_int8
+//@ replay: playback
+#[kani::proof]
+#[kani::unwind(6)]
+#[kani::stub(std::hash::RandomState::new, fixed_random_state)]
+#[kani::stub(random_int, no_random_int)]
+#[kani::stub(<SemValue as std::clone::Clone>::clone, clone_thunk_only)]
+fn c06_h2_std_io_legacy_reads() {
+    std_io_case(6, 9);
 }
 
